@@ -10,10 +10,10 @@ Sounding(notes) == [rest |-> FALSE, notes |-> notes]
 \* content denoted by an argument: None stays a rest; strings, notes, lists and containers become a container
 ContentOf(arg) == IF arg.rest THEN Rest ELSE Sounding(AddList(<<>>, arg.items))
 
-Log2(u) == CHOOSE k \in 0..12 : Pow2(k) = u
+Log2(u) == IF \E k \in 0..12 : Pow2(k) = u THEN CHOOSE k \in 0..12 : Pow2(k) = u ELSE 0      \* total: 0 for a unit that is no power of two
 UnitValue(u) == [b |-> Log2(u) + 2, d |-> 0, r |-> <<1, 1>>]
 MeterLength(count, unit) == IF count = 0 /\ unit = 0 THEN Unbounded ELSE (count * L) \div unit
-MeterAccepted(count, unit) == (count = 0 /\ unit = 0) \/ IsPow2(unit)
+MeterAccepted(count, unit) == (count = 0 /\ unit = 0) \/ (unit >= 1 /\ IsPow2(unit))
 
 NewBar(meter) == [meter |-> meter, len |-> MeterLength(meter[1], meter[2]), entries |-> <<>>]
 Total(entries) == IF entries = <<>> THEN 0 ELSE entries[Len(entries)].at + entries[Len(entries)].t
